@@ -359,7 +359,7 @@ func c02Replay(pl json.RawMessage) (string, []core.Violation) {
 func init() {
 	core.Register(&core.PropSpec{
 		ID: "C02", Level: "exploration",
-		Rule:     "every token sequence of length 1..n (n=4 quick, 5 thorough) over the 45-lexeme alphabet, in every layout over {space, LF} per gap plus every single-gap deviation to {none, TAB, CRLF, comment+LF, blank line, two spaces}; the reference ECMAScript parser (goja) selects the texts that are valid and use only subset node kinds; xjs (strict, default) must accept each and build the same tree shape (grouping nodes dropped). non-trivial = distinct (token sequence) that is a valid subset program; programs = valid (sequence, layout) pairs compared Added families: tokens that contain line breaks (multi-line templates, continued strings) after return, before ++/--, before ( and [ (15 templates x 5 literals); the scale family; thorough: all bracket-balanced sequences of length 6 over the 30-token class alphabet in space and LF layouts.",
+		Rule:     "every token sequence of length 1..n (n=4 quick, 5 thorough) over the 45-lexeme alphabet, in every layout over {space, LF} per gap plus every single-gap deviation to {none, TAB, CRLF, comment+LF, blank line, two spaces}; the reference ECMAScript parser (goja) selects the texts that are valid and use only subset node kinds; xjs (strict, default) must accept each and build the same tree shape (grouping nodes dropped). non-trivial = distinct (token sequence) that is a valid subset program; programs = valid (sequence, layout) pairs compared Added families: tokens that contain line breaks (multi-line templates, continued strings) after return, before ++/--, before ( and [ (15 templates x 5 literals); the scale family; thorough: all bracket-balanced sequences of length 6 over the 30-token class alphabet in space and LF layouts. Added (round 13): length 5 over the class alphabet in the quick tier.",
 		Assume:   []string{"goja's parser is the reference for ECMAScript structure", "domain restrictions D1-D5 of DESIGN.md §7 (keywords as property names, trailing commas, let as identifier, legacy number forms) are outside 'the supported subset'"},
 		QuickSec: 240, ThorSec: 2400, Run: c02Run, Replay: c02Replay,
 		Evals: "programs", Nontriv: "distinct_valid_token_sequences",
